@@ -87,7 +87,23 @@ Inductive op :=
 | OPkgId (v : Z)                            (* sc_package_id after sc_init / sc_finalize *)
 | OShSet (comm t : Z) | OShGet (comm : Z)
 | OSpacing (a b : Z)                        (* sc_options_new; sc_options_set_spacing (a, b); columns of print_usage *)
-| OSpacing0.                                (* sc_options_new; columns of print_usage *)
+| OSpacing0                                 (* sc_options_new; columns of print_usage *)
+(* operations that USE a configured object and store nothing *)
+| OUse (k mode pay : Z)                     (* one round sc_notify_payload on controller k (mode: receiver pattern, pay: payload variant) *)
+| OUseV (k mode : Z)                        (* one round sc_notify_payloadv on controller k *)
+| OShUse (comm v : Z)                       (* sc_shmem_malloc / write / allgather / prefix / memcpy / free on the communicator *)
+| OSpacingU (a b u : Z).                    (* as OSpacing, with parse / print_usage / print_summary / more options between set and observation *)
+
+(* a notification round is legal on a controller whose settings describe an algorithm that can run: a tree with
+   branching widths in [2, 64], between 1 and 64 ranges with a package id >= -1, a superset callback that is not NULL *)
+Definition use_ok (n : notify) : bool :=
+  supports_type (n_type n) &&
+  match n_data n with
+  | UNary a b c => (2 <=? a) && (a <=? 64) && (2 <=? b) && (b <=? 64) && (2 <=? c) && (c <=? 64)
+  | URanges nr pk => (1 <=? nr) && (nr <=? 64) && (-1 <=? pk)
+  | USuperset cb _ => negb (cb =? 0)
+  | UOther => true
+  end.
 
 (* columns (0-based) at which sc_options_print_usage starts the type display "<INT>" and the help text of
    the harness's option "-i | --int" (13 characters are printed before the first gap) *)
@@ -166,6 +182,23 @@ Definition step (mpi : bool) (junk : Z * Z) (w : world) (o : op) : option (world
       else Some (w, [sc_shmem_get_type_serial])
   | OSpacing a b => let '(st, sh) := sc_options_set_spacing a b in Some (w, spacing_columns st sh)
   | OSpacing0 => let '(st, sh) := sc_options_set_spacing (-1) (-1) in Some (w, spacing_columns st sh)
+  (* a round stores nothing: the controller is what it was *)
+  | OUse k mode pay =>
+      if (0 <=? mode) && (mode <=? 3) && (0 <=? pay) && (pay <=? 3) then
+        on_obj w k (fun n => if use_ok n then Some (n, []) else None)
+      else None
+  | OUseV k mode =>
+      if (0 <=? mode) && (mode <=? 3) then on_obj w k (fun n => if use_ok n then Some (n, []) else None) else None
+  (* sc_shmem_get_type_default: a communicator WITHOUT the attribute gets sc_shmem_default_type on first use (MPI);
+     an attribute that was set stays *)
+  | OShUse comm v =>
+      if mpi then
+        match find comm (w_shmem w) with
+        | Some _ => Some (w, [])
+        | None => Some (with_shmem w (update comm init_sc_shmem_default_type (w_shmem w)), [])
+        end
+      else Some (w, [])
+  | OSpacingU a b u => let '(st, sh) := sc_options_set_spacing a b in Some (w, spacing_columns st sh)
   end.
 
 Fixpoint run (mpi : bool) (junk : Z * Z) (w : world) (ops : list op) : option (world * list (list Z)) :=
